@@ -332,6 +332,7 @@ func c06RunSpecial(t *testing.T, idx int, name string) c06PathOut {
 		done := make(chan struct{})
 		go func() { _ = pid.Restart(ctx); close(done) }()
 		<-a.preBegan
+		time.Sleep(3 * time.Millisecond)
 		l.add("driver", "second-prestart-began")
 		if name == "restart-public-tell-during-prestart-refused" {
 			if err := Tell(ctx, pid, &c06Plain{}); err == nil {
